@@ -214,8 +214,11 @@ static void drive_other(int thorough) {
       char argc[96]; snprintf(argc, sizeof argc, "%s,%s,", ci ? (ci > 2 ? "badatom" : "crystal") : "null", (h || k || l) ? "hkl" : "000");
       { xrl_error *e = NULL; long o0 = W_over; double v = Crystal_dSpacing(cr[ci], h, k, l, &e); long over = W_over - o0; double v2 = Crystal_dSpacing(cr[ci], h, k, l, NULL);
         snprintf(wbuf, sizeof wbuf, "{\"s\":\"%s\",\"i\":[%d,%d,%d]}", crn[ci], h, k, l); observe("Crystal_dSpacing", argc, v, e, v2, over, wbuf); xrl_clear_error(&e); }
-      for (int a = 0; a < NE; a++) {
-        double E = ELIST[a]; char argc2[128]; snprintf(argc2, sizeof argc2, "%s%s,", argc, dcls(E));
+      /* besides the common energy list: the threshold of this reflection, hc/E = 2 d, approached from both sides - where "no reflection" turns into an angle */
+      double ee[80]; int ne2 = 0; for (int a = 0; a < NE && ne2 < 64; a++) ee[ne2++] = ELIST[a];
+      if (cr[ci] && (h || k || l)) { double d = Crystal_dSpacing(cr[ci], h, k, l, NULL); if (d > 0) { static const double off[] = {-1e-3, -1e-6, -3e-8, -1e-9, 0.0, 1e-9, 3e-8, 1e-6}; for (int q = 0; q < 8; q++) ee[ne2++] = KEV2ANGST / (2 * d) * (1.0 + off[q]); } }
+      for (int a = 0; a < ne2; a++) {
+        double E = ee[a]; char argc2[128]; snprintf(argc2, sizeof argc2, "%s%s,", argc, dcls(E));
         char *w = wbuf; w += sprintf(w, "{\"s\":\"%s\",\"i\":[%d,%d,%d],\"d\":[", crn[ci], h, k, l); jd_s(w, E); w += strlen(w); sprintf(w, "]}");
         { xrl_error *e = NULL; long o0 = W_over; double v = Bragg_angle(cr[ci], E, h, k, l, &e); long over = W_over - o0; double v2 = Bragg_angle(cr[ci], E, h, k, l, NULL); observe("Bragg_angle", argc2, v, e, v2, over, wbuf); xrl_clear_error(&e); }
         for (int ri = 0; ri < 3; ri++) { double rel = ri == 0 ? 0.0 : ri == 1 ? 1.0 : 2.5;
